@@ -35,6 +35,9 @@ type C19Case struct {
 	BasicAuth  string   `json:"basic_auth,omitempty"`     // password of --basic-auth ("" = flag not used)
 	APIAuth    string   `json:"api_basic_auth,omitempty"` // password of --api-basic-auth
 	ProxyPass  string   `json:"proxy_pass,omitempty"`     // password in --proxy URL
+	// GlobalFirst: the first --credentials entry is the catch-all *:* (and no entry names the origin), so that it is
+	// the one selected for the exchanges
+	GlobalFirst bool `json:"global_first,omitempty"`
 	CredPasses []string `json:"cred_passes,omitempty"`    // passwords of --credentials entries (first: the origin, second: the upstream proxy host, third: *:*)
 	KeyFlags   []string `json:"key_flags,omitempty"`      // subset of tls, mitm, cacert: supplied as data: URIs
 	JSONLog    bool     `json:"json_log"`
@@ -95,6 +98,7 @@ func genC19(t *rapid.T) C19Case {
 	for i := 0; i < nc; i++ {
 		c.CredPasses = append(c.CredPasses, genSecret(t, fmt.Sprintf("cr%d", i), ",\"")) // list items are parsed as CSV: no ',' and no '"'
 	}
+	c.GlobalFirst = nc > 0 && rapid.IntRange(0, 2).Draw(t, "globalfirst") == 0
 	if nc > 0 && rapid.IntRange(0, 3).Draw(t, "userholdspass") == 0 {
 		c.UserHoldsPass = rapid.SampledFrom([]string{"equal", "contains"}).Draw(t, "userholdspasskind")
 		c.CredPasses[0] = "S3ccr0" + rapid.StringMatching(`[a-zA-Z0-9]{6}`).Draw(t, "plainpass") // a password that can be part of a user name
@@ -308,6 +312,9 @@ func runC19(c C19Case) (fails []vstat.Failure) {
 	var creds []string
 	for i, p := range c.CredPasses {
 		hp := []string{e.origin.Addr, e.upstream.Host + ":*", "*:*"}[i]
+		if c.GlobalFirst {
+			hp = []string{"*:*", e.upstream.Host + ":*", "unused.test:1"}[i]
+		}
 		user := fmt.Sprintf("cruser%d", i)
 		if i == 0 {
 			switch c.UserHoldsPass {
